@@ -386,3 +386,70 @@ func runC17_7(c *core.Ctx) {
 		c.Ok(f.Name, "local zone recycled", f.Decl.Pos(), "release() does not recycle local address zones")
 	}
 }
+
+func init() {
+	register(&core.Rule{ID: "C17.8", Prop: "C17", MinSites: 2,
+		Desc: "address bytes are normalised to the array they fill: every copy into unix.SockaddrInet4.Addr takes its source from To4() and every copy into SockaddrInet6.Addr from To16() (directly or through a variable bound to that call) – a 16-byte IPv4 net.IP copied as it is puts its leading zeros into the 4-byte field (0.0.0.0)",
+		Run: runC17_8})
+}
+
+func runC17_8(c *core.Ctx) {
+	sites := 0
+	allFuncs(c, func(f *fn) {
+		rel := strings.TrimPrefix(f.Pkg.PkgPath, core.ModPath)
+		if rel != "" && rel != "/pkg/socket" {
+			return
+		}
+		for _, call := range callsIn(f.Decl.Body, true) {
+			id, ok := ast.Unparen(call.Fun).(*ast.Ident)
+			if !ok || id.Name != "copy" || len(call.Args) != 2 {
+				continue
+			}
+			if _, isB := f.Info.Uses[id].(*types.Builtin); !isB {
+				continue
+			}
+			se, ok := ast.Unparen(call.Args[0]).(*ast.SliceExpr)
+			if !ok {
+				continue
+			}
+			sel, ok := ast.Unparen(se.X).(*ast.SelectorExpr)
+			if !ok || sel.Sel.Name != "Addr" {
+				continue
+			}
+			t := f.Info.TypeOf(sel.X)
+			if t == nil {
+				continue
+			}
+			want := ""
+			switch {
+			case strings.HasSuffix(t.String(), "unix.SockaddrInet4"):
+				want = "To4"
+			case strings.HasSuffix(t.String(), "unix.SockaddrInet6"):
+				want = "To16"
+			default:
+				continue
+			}
+			sites++
+			isNorm := func(e ast.Expr) bool {
+				c2, ok := ast.Unparen(e).(*ast.CallExpr)
+				if !ok {
+					return false
+				}
+				s2, ok := ast.Unparen(c2.Fun).(*ast.SelectorExpr)
+				return ok && s2.Sel.Name == want && len(c2.Args) == 0
+			}
+			src := ast.Unparen(call.Args[1])
+			okk := isNorm(src)
+			if o, isVar := flow.ObjOf(f.Info, src).(*types.Var); !okk && isVar {
+				if d := defOf(f.Info, f.Decl.Body, o); d != nil && isNorm(d) {
+					okk = true
+				}
+			}
+			c.Check(okk, f.Name, "copy into "+exprStr(sel)+" from "+want+"()", call.Pos(), "source normalised to the array length",
+				"the bytes copied into "+exprStr(sel)+" ("+exprStr(call.Args[1])+") are not the result of "+want+"(): a net.IP holding an IPv4 address in its 16-byte form fills the 4-byte field with its leading zeros, so the datagram or connection goes to 0.0.0.0 instead of the given address")
+		}
+	})
+	if sites == 0 {
+		c.Undecided("pkg/socket", "copies into sockaddr arrays", 0, "no copy into a SockaddrInet4/6.Addr found: idiom not recognised")
+	}
+}
